@@ -27,6 +27,9 @@ pub enum E {
     Default,
     FromIterOwned(Vec<(usize, ScalarSpec)>),
     FromIterRef(Vec<(usize, ScalarSpec)>),
+    /// a long running sum: starting from the empty combination, `n` steps of `acc ± term`,
+    /// `acc ± variable`, `acc ± constant` drawn from a small pseudo-random stream
+    Chain(usize, u64),
     // operators on Variable
     VarNeg(usize),
     VarMul(usize, ScalarSpec),
@@ -57,6 +60,7 @@ impl E {
             E::Default => "Default",
             E::FromIterOwned(_) => "FromIterator(owned)",
             E::FromIterRef(_) => "FromIterator(&)",
+            E::Chain(..) => "long-running-sum",
             E::VarNeg(_) => "-Var",
             E::VarMul(..) => "Var*F",
             E::VarMulU64(..) => "Var*u64",
@@ -94,6 +98,7 @@ impl E {
             E::Default => "Lc::default()".into(),
             E::FromIterOwned(t) => format!("collect([{}])", terms(t)),
             E::FromIterRef(t) => format!("collect(&[{}])", terms(t)),
+            E::Chain(n, sd) => format!("running-sum({} steps, stream {})", n, sd),
             E::VarNeg(i) => format!("-{}", v(i)),
             E::VarMul(i, c) => format!("{}*{}", v(i), c.short()),
             E::VarMulU64(i, c) => format!("{}*{}u64", v(i), c),
@@ -121,6 +126,17 @@ impl E {
             E::Const(c) => c.to_f(),
             E::Default => F::zero(),
             E::FromIterOwned(t) | E::FromIterRef(t) => t.iter().map(|(i, c)| a[*i] * c.to_f::<F>()).sum(),
+            E::Chain(n, sd) => chain_steps(*n, *sd).map(|(op, i, c)| {
+                let c: F = F::from(c);
+                match op {
+                    0 => a[i] * c,
+                    1 => -(a[i] * c),
+                    2 => a[i],
+                    3 => -a[i],
+                    4 => c,
+                    _ => -c,
+                }
+            }).sum(),
             E::VarNeg(i) => -a[*i],
             E::VarMul(i, c) => a[*i] * c.to_f::<F>(),
             E::VarMulU64(i, c) => a[*i] * F::from(*c),
@@ -174,6 +190,17 @@ impl E {
                     _ => owned.iter().take_while(|_| true).collect(),
                 }
             }
+            E::Chain(n, sd) => chain_steps(*n, *sd).fold(LinearCombination::default(), |acc, (op, i, c)| {
+                let c: F = F::from(c);
+                match op {
+                    0 => acc + v[i] * c,
+                    1 => acc - v[i] * c,
+                    2 => acc + v[i],
+                    3 => acc - v[i],
+                    4 => acc + c,
+                    _ => acc - c,
+                }
+            }),
             E::VarNeg(i) => -v[*i],
             E::VarMul(i, c) => v[*i] * c.to_f::<F>(),
             E::VarMulU64(i, c) => v[*i] * *c,
@@ -196,6 +223,21 @@ impl E {
     }
 }
 
+/// (operation, variable index, small coefficient) for each step of a running sum; the variable
+/// sequence favours runs, returns to earlier variables, and ends on any of them
+fn chain_steps(n: usize, sd: u64) -> impl Iterator<Item = (u8, usize, u64)> {
+    let mut x: u64 = 0x2545_f491_4f6c_dd1d ^ sd.wrapping_mul(0x9e37_79b9_7f4a_7c15);
+    (0..n).map(move |_| {
+        x ^= x << 13;
+        x ^= x >> 7;
+        x ^= x << 17;
+        let op = [0u8, 0, 0, 1, 1, 2, 3, 4, 5][(x >> 8) as usize % 9];
+        let var = (x >> 16) as usize % NV;
+        let c = 1 + (x >> 32) % 97;
+        (op, var, c)
+    })
+}
+
 fn gen_terms(ch: &mut Choices) -> Vec<(usize, ScalarSpec)> {
     // now and then a very long term list
     let n = if ch.chance(6) { 100 + ch.below(400) } else { ch.below(5) };
@@ -205,7 +247,16 @@ fn gen_terms(ch: &mut Choices) -> Vec<(usize, ScalarSpec)> {
 fn gen_tree(ch: &mut Choices, depth: usize) -> E {
     let leaf = depth == 0 || ch.chance(70);
     if leaf {
-        return match ch.weighted(&[18, 10, 4, 9, 9, 8, 9, 6, 7, 7, 6, 7]) {
+        return match ch.weighted(&[18, 10, 4, 9, 9, 8, 9, 6, 7, 7, 6, 7, 2]) {
+            12 => {
+                let n = match ch.below(4) {
+                    0 => 2 + ch.below(60),
+                    1 => 1000 + ch.below(3000),
+                    2 => 4090 + ch.below(12),
+                    _ => 4097 + ch.below(5000),
+                };
+                E::Chain(n, ch.u16() as u64)
+            }
             0 => E::Var(ch.below(NV)),
             1 => E::Const(ScalarSpec::gen(ch)),
             2 => E::Default,
@@ -245,32 +296,86 @@ fn build_ctx<F: ark_ff::PrimeField, CS: ConstraintSystem<F>>(cs: &mut CS, coms: 
     Ok(vec![coms[0], coms[1], l0, r0, o0, l1, r1, o1, l2, r2, Variable::One()])
 }
 
-/// prove and verify a circuit whose constraints are `tree_i - c_i`
-fn circuit<G: CurveTag>(w: &[Fr<G>], blinds: &[Fr<G>; 2], cons: &[(&E, Fr<G>)], seed: u64) -> Result<Result<(), R1CSError>, String> {
+/// the handles `build_ctx` is going to return, spelled by hand (variables may be named in a
+/// constraint before they exist: constraints are only flattened when proving / verifying)
+fn hand_built<F: ark_ff::PrimeField>() -> Vec<Variable<F>> {
+    vec![
+        Variable::Committed(0),
+        Variable::Committed(1),
+        Variable::MultiplierLeft(0),
+        Variable::MultiplierRight(0),
+        Variable::MultiplierOutput(0),
+        Variable::MultiplierLeft(1),
+        Variable::MultiplierRight(1),
+        Variable::MultiplierOutput(1),
+        Variable::MultiplierLeft(2),
+        Variable::MultiplierRight(2),
+        Variable::One(),
+    ]
+}
+
+/// prove and verify a circuit whose constraints are `tree_i - c_i`; `when`: 0 constraints after
+/// the variables exist (returned handles), 1 before anything exists, 2 between the commitments
+/// and the gates, 3 after everything but with hand-built handles
+fn circuit_at<G: CurveTag>(w: &[Fr<G>], blinds: &[Fr<G>; 2], cons: &[(&E, Fr<G>)], seed: u64, when: u8) -> Result<Result<(), R1CSError>, String> {
     guarded(|| {
         let pc = pc_gens::<G>();
         let gens = bp_gens::<G>(4, 1);
+        let hb = hand_built::<Fr<G>>();
         let mut tp = Transcript::new(b"c15");
         let mut prover = Prover::new(&pc, &mut tp);
+        if when == 1 {
+            for (t, c) in cons {
+                prover.constrain(t.build(&hb) - *c);
+            }
+        }
         let (c0, v0) = prover.commit(w[0], blinds[0]);
         let (c1, v1) = prover.commit(w[1], blinds[1]);
+        if when == 2 {
+            for (t, c) in cons {
+                prover.constrain(t.build(&hb) - *c);
+            }
+        }
         let vars = build_ctx(&mut prover, [v0, v1], Some(w)).expect("prover context");
-        for (t, c) in cons {
-            // `expr - c` with the constant passed as a field element (Sub<F>)
-            prover.constrain(t.build(&vars) - *c);
+        if when == 0 || when == 3 {
+            for (t, c) in cons {
+                // `expr - c` with the constant passed as a field element (Sub<F>)
+                prover.constrain(t.build(if when == 0 { &vars } else { &hb }) - *c);
+            }
         }
         let mut rng = CountingRng::new(seed, 3);
         let proof = prover.prove(&mut rng, &gens)?;
         let mut tv = Transcript::new(b"c15");
         let mut verifier = Verifier::<G, _>::new(&mut tv);
+        if when == 1 {
+            for (t, c) in cons {
+                verifier.constrain(t.build(&hb) - *c);
+            }
+        }
         let v0 = verifier.commit(c0);
         let v1 = verifier.commit(c1);
+        if when == 2 {
+            for (t, c) in cons {
+                verifier.constrain(t.build(&hb) - *c);
+            }
+        }
         let vars = build_ctx(&mut verifier, [v0, v1], None).expect("verifier context");
-        for (t, c) in cons {
-            verifier.constrain(t.build(&vars) - *c);
+        if when == 0 || when == 3 {
+            for (t, c) in cons {
+                verifier.constrain(t.build(if when == 0 { &vars } else { &hb }) - *c);
+            }
         }
         verifier.verify(&proof, &pc, &gens)
     })
+}
+
+thread_local! {
+    /// where the constraints of the current case are spelled (see `circuit_at`)
+    static WHEN: std::cell::Cell<u8> = std::cell::Cell::new(0);
+}
+
+fn circuit<G: CurveTag>(w: &[Fr<G>], blinds: &[Fr<G>; 2], cons: &[(&E, Fr<G>)], seed: u64) -> Result<Result<(), R1CSError>, String> {
+    circuit_at::<G>(w, blinds, cons, seed, WHEN.with(|c| c.get()))
 }
 
 fn case<G: CurveTag>(bytes: &[u8], col: &mut Collector, max_depth: usize) -> Result<(), Failure> {
@@ -295,8 +400,11 @@ fn case<G: CurveTag>(bytes: &[u8], col: &mut Collector, max_depth: usize) -> Res
     let delta = ScalarSpec::gen_nonzero(&mut ch);
     let bad_idx = ch.below(ntrees);
     let seed = ch.u16() as u64;
+    let when = ch.weighted(&[55, 18, 14, 13]) as u8;
+    WHEN.with(|c| c.set(when));
     let vals: Vec<Fr<G>> = trees.iter().map(|t| t.eval(&w)).collect();
-    let what = |extra: Value| json!({"curve": G::CURVE.name(), "assignment": specs.iter().map(|s| s.short()).collect::<Vec<_>>(), "trees": trees.iter().map(|t| t.show()).collect::<Vec<_>>(), "detail": extra});
+    let when_name = ["after the variables exist", "before any variable exists (hand-built handles)", "between the commitments and the gates (hand-built handles)", "after the variables exist (hand-built handles)"][when as usize];
+    let what = |extra: Value| json!({"curve": G::CURVE.name(), "constraints_spelled": when_name, "assignment": specs.iter().map(|s| s.short()).collect::<Vec<_>>(), "trees": trees.iter().map(|t| t.show()).collect::<Vec<_>>(), "detail": extra});
     // circuit A: every tree constrained to its reference value
     let cons: Vec<(&E, Fr<G>)> = trees.iter().zip(vals.iter().copied()).collect();
     match circuit::<G>(&w, &blinds, &cons, seed) {
@@ -347,6 +455,7 @@ fn case<G: CurveTag>(bytes: &[u8], col: &mut Collector, max_depth: usize) -> Res
         }
     }
     col.evals_add(ntrees as u64);
+    col.class(["constraints:after", "constraints:before-everything", "constraints:between-commitments-and-gates", "constraints:hand-built-handles"][when as usize]);
     col.sample(big > 0, || what(json!({"reference_values_accepted": ntrees, "off_by": delta.short(), "off_tree": trees[bad_idx].show(), "off_verdict": "rejected"})));
     Ok(())
 }
